@@ -13,16 +13,16 @@ func fatalf(format string, a ...any) {
 
 // RunResult is what one concurrent execution of a scenario produced.
 type RunResult struct {
-	W         *World
-	Recs      [][]*ReqRec
-	Steps     []StepRec
-	SchedHash uint64
-	Overrun   bool
-	States    []uint64 // abstract state hash after every step
-	Between   []string // invariant failures noticed between steps
+	W                                    *World
+	Recs                                 [][]*ReqRec
+	Steps                                []StepRec
+	SchedHash                            uint64
+	Overrun                              bool
+	States                               []uint64 // abstract state hash after every step
+	Between                              []string // invariant failures noticed between steps
 	Gets, Puts, Reuses, Drops, DoublePut int
-	CacheFaultsApplied, CacheFaultsNoop int
-	Preemptions                         int
+	CacheFaultsApplied, CacheFaultsNoop  int
+	Preemptions                          int
 }
 
 func (r *RunResult) All() []*ReqRec {
